@@ -365,8 +365,11 @@ class Monitor:
         loop = self.run.loop
         # due timers already moved to the ready queue still count as pending
         ready = [h for h in loop._ready if hasattr(h, '_when') and not h._cancelled]
+        # the timer callback is blk.event (hooked: tagged with _sim_blk) or a bound method
+        # of the block (e.g. FSM._timer_expired)
         return [h for h in loop.live_timers() + ready
-                if getattr(h._callback, '_sim_blk', None) is self.blk]
+                if getattr(h._callback, '_sim_blk', None) is self.blk
+                or getattr(h._callback, '__self__', None) is self.blk]
 
     def check_state(self, where):
         run = self.run
